@@ -227,3 +227,7 @@ mod tests {
         }
     }
 }
+
+#[cfg(all(aws_s2n_quic_verif, test))]
+#[path = "/verif/harness/core/stream_id.rs"]
+mod verif;
